@@ -457,7 +457,9 @@ def save_nmeas_estimate(
         f.write(json.dumps(data, indent=2))
 
 
-def load_nmeas_estimate(filename: AnyPath) -> Tuple[float, int, np.ndarray]:
+def load_nmeas_estimate(
+    filename: LoadSource,
+) -> Tuple[float, int, Optional[np.ndarray]]:
     """Load an estimate of the number of measurements from a file.
 
     Args:
@@ -469,10 +471,12 @@ def load_nmeas_estimate(filename: AnyPath) -> Tuple[float, int, np.ndarray]:
         frame_meas: frame measurements (number of measurements per group)
     """
 
-    with open(filename, "r") as f:
+    with ensure_open(filename) as f:
         data = json.load(f)
 
-    frame_meas = convert_dict_to_array(data["frame_meas"])
+    frame_meas = (
+        convert_dict_to_array(data["frame_meas"]) if "frame_meas" in data else None
+    )
     K_coeff = data["K"]
     nterms = data["nterms"]
 
